@@ -15,11 +15,14 @@ FIELD_TYPES = [  # (rust type, Coq ty, compact-able width or None)
 INT_FIELDS = [f for f in FIELD_TYPES if f[2]]
 
 
-def gen_field(r, allow_conflict=False):
+def gen_field(r, allow_conflict=False, plain_wrapper=False):
     ft = r.choice(FIELD_TYPES)
     attr = "plain"
     if ft[2] and r.random() < 0.35:
         attr = r.choice(["compact", "encoded_as"])
+    if plain_wrapper and ft[2] and attr == "plain" and r.random() < 0.15:
+        # encoded_as a type that is NOT the compact form: Plain<T> encodes like T itself
+        attr = "as_plain"
     if r.random() < 0.15:
         attr = "skip"
     f = {"ty": ft, "attr": attr, "conflict": None}
@@ -34,6 +37,8 @@ def field_attrs(f):
         names = f["conflict"]
     else:
         names = () if f["attr"] == "plain" else (f["attr"],)
+    if f["attr"] == "as_plain":
+        return '#[codec(encoded_as = "crate::types::Plain<%s>")]' % f["ty"][0], ("encoded_as",)
     out = []
     for n in names:
         if n == "skip":
@@ -139,6 +144,10 @@ def render_enum(name, variants, derives, generics=""):
             attrs.append("#[codec(skip)]")
         if v["index"] is not None:
             attrs.append("#[codec(index = %d)]" % v["index"])
+        if v.get("rev"):
+            # the separate attributes in the other order (a merged `#[codec(index = N, skip)]` is
+            # rejected by the derive)
+            attrs = list(reversed(attrs))
         body = v["name"]
         if v["shape"] == "tuple":
             body += "(" + ", ".join("%s %s" % (field_attrs(f)[0], f["ty"][0]) for f in v["fields"]) + ")"
